@@ -1,6 +1,9 @@
 import NitroVerif.Base.Sexp
+import NitroVerif.Base.JsonSexp
+import NitroVerif.Gql.Codec
 import NitroVerif.Model.Paths
 import NitroVerif.Model.Loader
+import NitroVerif.Lemmas.LoaderComposed
 /-!
 Driver for C19. One request = one whole history:
 
@@ -88,7 +91,231 @@ def opOf : Sexp → Option (Op String Nat)
   | .list [.atom "res"] => some .getResult
   | _ => none
 
+
+/-! ### the concrete emitter (`Lemmas/LoaderComposed.lean`) -/
+namespace Concrete
+open NitroVerif.Gql NitroVerif.LoaderC NitroVerif.Composed NitroVerif.Imports
+
+/-- inverse of `Composed.encL` (base-1114113 digits, each `toNat + 1`) -/
+partial def decL (n : Nat) : List Char :=
+  if n = 0 then [] else Char.ofNat (n % 1114113 - 1) :: decL (n / 1114113)
+
+/-- error numbers: 1 = syntax error, 2 = `resolve_operation_extensions` error (both as in the abstract stream), 99 = no such
+    source, ≥ 100 = an emission error whose description is read back with `decS` -/
+def encS (s : String) : Nat := 100 + encL s.toList
+def decS (n : Nat) : String := String.ofList (decL (n - 100))
+
+def rawOf (i : ImportDef) : RawImport String :=
+  ⟨i.path, i.targets.map fun
+    | none => .wildcard
+    | some (n, _) => .name (nameCode n)⟩
+
+/-- `resolve_operation_extensions` on a parsed document: the import lines are merged by `Imports.resolveExt` (C13's
+    model), the other definitions are kept in order -/
+def srcFileOf (defs : List ExecDef) : Except Nat (SrcFile String) :=
+  let lines := defs.filterMap fun
+    | .imp i => some (rawOf i)
+    | _ => none
+  match resolveExt lines with
+  | .error _ => .error 2
+  | .ok imps => .ok ⟨imps, defs.filter fun
+      | .imp _ => false
+      | _ => true⟩
+
+def poolEntry : Sexp → Option (Except Nat (SrcFile String))
+  | .list [.atom "err", c] => c.nat?.map .error
+  | .list (.atom "doc" :: ds) => (Dec.doc (.list (.atom "doc" :: ds))).map srcFileOf
+  | _ => none
+
+def params (cfg : Exports.Config) (pool : Array (Except Nat (SrcFile String))) : Params String Nat where
+  parseSrc i := match pool[i]? with
+    | some r => r
+    | none => .error 99
+  res := resolveStr
+  code := nameCode
+  cfg := cfg
+  eImp
+    | .fileNotFound _ rel _ => encS ("N" ++ rel)
+    | .fragmentNotFound _ rel id => encS ("F" ++ String.ofList (decL id.name) ++ "\n" ++ rel)
+  eUndef n := encS ("U" ++ n)
+
+/-- a file list with the given lookup function on the paths of `U` -/
+def rebuild (U : List String) (look : String → Option (Loader.Doc String Nat)) : List (String × Loader.Doc String Nat) :=
+  U.filterMap fun p => (look p).map fun d => (p, d)
+
+/-- `LoaderC.concreteEnv π`, computably: `concreteEnv` picks (classical choice) ANY file list with the task's lookup
+    function and `emitOfLook_lookup` / `emitFiles_ext` show the choice is immaterial; here the list is rebuilt from the
+    lookup function on `U` = every path a call of the history supplies (no other path can be a key of a task) -/
+def env (π : Params String Nat) (U : List String) : Env String Nat JsModule where
+  parse s := match π.parseSrc s with
+    | .ok f => .ok (f.imports.map (·.rel))
+    | .error c => .error c
+  resolve := π.res
+  emit root look := emitFiles π root (rebuild U look)
+
+/-- DELIBERATELY WRONG variants of `LoaderC.emitFiles` (a copy of its body with one step altered), only for the harness'
+    self-test `C19_CONCRETE_MUTANT=k` (the stream must report each of 1–4; never used by `./check`):
+    1 = imported definitions appended in reverse order, 2 = the LAST undefined spread is reported, 3 = no undefined-spread
+    check, 4 = literals attached to the constants in reverse order; 5 is not a mutant but the candidate correction
+    "the root is known to the import resolver by its NORMALISED path" (see design-notes/C19.md) -/
+def emitFilesM (k : Nat) (π : Params String Nat) (root : String) (files : List (String × Loader.Doc String Nat)) :
+    EmitRes JsModule :=
+  match (projOf π files).lookup root with
+  | none => .err 0
+  | some rootFile =>
+    let root' := if k = 5 then Paths.render (Paths.normalize (Paths.components root)) else root
+    match resolveDoc π.code π.res (projOf π files) root' rootFile with
+    | .err e => .err (π.eImp e)
+    | .outOfFuel => .trap
+    | .ok R0 =>
+      let R := if k = 1 then rootFile.defs ++ (R0.drop rootFile.defs.length).reverse else R0
+      let undef :=
+        if k = 2 then (allSpreads R).reverse.find? fun n => decide (n ∉ NitroVerif.C12.fragNamesOf R)
+        else if k = 3 then none
+        else findUndefined R
+      match undef with
+      | some n => .err (π.eUndef n)
+      | none =>
+        match moduleOf π.cfg R with
+        | .ok m => .js (if k = 4 then ⟨m.stmts, m.docs.reverse⟩ else m)
+        | .error _ => .trap
+
+def envM (k : Nat) (π : Params String Nat) (U : List String) : Env String Nat JsModule :=
+  { env π U with emit := fun root look => emitFilesM k π root (rebuild U look) }
+
+theorem lookup_rebuild (U : List String) (look : String → Option (Loader.Doc String Nat)) (p : String) :
+    Loader.lookup (rebuild U look) p = if p ∈ U then look p else none := by
+  induction U with
+  | nil => simp [rebuild]
+  | cons q r ih =>
+    unfold rebuild at ih ⊢
+    rw [List.filterMap_cons]
+    cases hq : look q with
+    | none =>
+      simp only [Option.map_none]
+      rw [ih]
+      by_cases hp : p = q
+      · subst hp; simp [hq]
+      · simp [hp]
+    | some d =>
+      simp only [Option.map_some]
+      rw [Loader.lookup_cons, ih]
+      by_cases hp : q = p
+      · subst hp; simp [hq]
+      · have : ¬ p = q := fun h => hp h.symm
+        simp [hp, this]
+
+/-- on every task whose file names are among `U`, `env π U` emits exactly what `concreteEnv π` emits -/
+theorem env_emit (π : Params String Nat) (U : List String) (root : String) (files : List (String × Loader.Doc String Nat))
+    (h : ∀ p, p ∉ U → Loader.lookup files p = none) :
+    (env π U).emit root (Loader.lookup files) = (concreteEnv π).emit root (Loader.lookup files) := by
+  show emitFiles π root (rebuild U (Loader.lookup files)) = emitOfLook π root (Loader.lookup files)
+  rw [emitOfLook_lookup]
+  apply emitFiles_ext
+  funext p
+  rw [lookup_rebuild]
+  by_cases hp : p ∈ U
+  · simp [hp]
+  · simp [hp, h p hp]
+
+def parseMode : String → Option Exports.Mode
+  | "with-loader-ts-5.0" => some .withLoaderTs5
+  | "with-loader-ts-4.0" => some .withLoaderTs4
+  | "standalone-ts-4.0" => some .standaloneTs4
+  | _ => none
+
+def parseBool : Sexp → Option Bool
+  | .atom "true" => some true
+  | .atom "false" => some false
+  | _ => none
+
+/-- as in Driver/C14.lean -/
+def parseCfgKey (r : Exports.RawCfg) : Sexp → Option Exports.RawCfg
+  | .list [.atom "mode", .str m] => (parseMode m).map fun m => { r with mode := some m }
+  | .list [.atom "defaultExportForOperation", b] => (parseBool b).map fun b => { r with defaultExportForOperation := some b }
+  | .list [.atom "operationResultType", b] => (parseBool b).map fun b => { r with operationResultType := some b }
+  | .list [.atom "variablesType", b] => (parseBool b).map fun b => { r with variablesType := some b }
+  | .list [.atom "capitalizeOperationNames", b] => (parseBool b).map fun b => { r with capitalizeOperationNames := some b }
+  | .list [.atom "queryVariableSuffix", .str s] => some { r with queryVariableSuffix := some s.toList }
+  | .list [.atom "mutationVariableSuffix", .str s] => some { r with mutationVariableSuffix := some s.toList }
+  | .list [.atom "subscriptionVariableSuffix", .str s] => some { r with subscriptionVariableSuffix := some s.toList }
+  | .list [.atom "fragmentVariableSuffix", .str s] => some { r with fragmentVariableSuffix := some s.toList }
+  | .list [.atom "operationResultTypeSuffix", .str s] => some { r with operationResultTypeSuffix := some s.toList }
+  | .list [.atom "variablesTypeSuffix", .str s] => some { r with variablesTypeSuffix := some s.toList }
+  | .list [.atom "fragmentTypeSuffix", .str s] => some { r with fragmentTypeSuffix := some s.toList }
+  | _ => none
+
+def parseCfg : List Sexp → Exports.RawCfg → Option Exports.RawCfg
+  | [], r => some r
+  | k :: ks, r => match parseCfgKey r k with
+    | some r' => parseCfg ks r'
+    | none => none
+
+def str (s : Exports.Str) : Sexp := .str (String.ofList s)
+
+def stmtSexp : Exports.Stmt → Sexp
+  | .typeAlias n e => .list [.atom "type", str n, Sexp.ofBool e]
+  | .const n i e a v => .list [.atom "const", str n, Sexp.ofNat i, Sexp.ofBool e, Sexp.ofBool a, Sexp.ofBool v]
+  | .exportDefault l => .list [.atom "default", str l]
+
+def modSexp (m : JsModule) : Sexp :=
+  .list [.atom "js", .list (.atom "stmts" :: m.stmts.map stmtSexp), .list (.atom "docs" :: m.docs.map Json.toSexp)]
+
+def errSexp : ErrKind → Sexp
+  | .taskNotFound => .atom "notfound"
+  | .source c =>
+    if c < 100 then .list [.atom "src", Sexp.ofNat c]
+    else match (decS c).toList with
+      | 'N' :: rel => .list [.atom "imp", .atom "notfound", .str (String.ofList rel)]
+      | 'F' :: rest =>
+        .list [.atom "imp", .atom "nofrag", .str (String.ofList ((rest.dropWhile (· != '\n')).drop 1)),
+          .str (String.ofList (rest.takeWhile (· != '\n')))]
+      | 'U' :: n => .list [.atom "undef", .str (String.ofList n)]
+      | _ => .list [.atom "src", Sexp.ofNat c]
+
+def resSexp : Res String JsModule → Sexp
+  | .msg e => .list [.atom "msg", errSexp e]
+  | .files l => .list (.atom "files" :: (sortStr l).map .str)
+  | .js j => modSexp j
+
+def respSexp : Resp String JsModule → Sexp
+  | .taskId n => .list [.atom "id", Sexp.ofNat n]
+  | .failed e => .list [.atom "failed", errSexp e]
+  | .files l => .list (.atom "files" :: (sortStr l).map .str)
+  | .loaded => .list [.atom "loaded"]
+  | .js j => modSexp j
+  | .freed => .list [.atom "freed"]
+  | .result r => .list [.atom "result", resSexp r]
+  | .trap => .list [.atom "trap"]
+
+def pathsOf (ops : List (Op String Nat)) : List String :=
+  ops.filterMap fun
+    | .call (.initiate f _) => some f
+    | .call (.load _ f _) => some f
+    | _ => none
+
+def runHist (mutant : Nat) (π : Params String Nat) : Sexp → Option Sexp
+  | .list (.atom "ops" :: os) => (os.mapM opOf).map fun ops =>
+      let U := (pathsOf ops).eraseDups
+      Sexp.ok ((runResps (if mutant = 0 then env π U else envM mutant π U) init ops).map respSexp)
+  | _ => none
+
+def handle (mutant : Nat) (ks es hs : List Sexp) : Sexp :=
+  match parseCfg ks {}, es.mapM poolEntry with
+  | some raw, some pool =>
+    match hs.mapM (runHist mutant (params (Exports.Config.parse raw) pool.toArray)) with
+    | some rs => Sexp.ok rs
+    | none => .list [.atom "bad-request"]
+  | _, _ => .list [.atom "bad-request"]
+
+end Concrete
+
 def handle : Sexp → Sexp
+  | .list [.atom "concrete", .list (.atom "cfg" :: ks), .list (.atom "pool" :: es), .list (.atom "hists" :: hs)] =>
+    Concrete.handle 0 ks es hs
+  | .list [.atom "concrete", .list [.atom "mutant", k], .list (.atom "cfg" :: ks), .list (.atom "pool" :: es),
+      .list (.atom "hists" :: hs)] =>
+    Concrete.handle (k.nat?.getD 0) ks es hs
   | .list [.atom "hist", .list (.atom "pool" :: es), .list (.atom "ops" :: os)] =>
     match es.mapM poolEntry, os.mapM opOf with
     | some pool, some ops => Sexp.ok ((runResps (mkEnv pool.toArray) init ops).map respSexp)
